@@ -9,6 +9,7 @@ import (
 	"log/slog"
 	"os"
 	"path/filepath"
+	"runtime"
 	"strings"
 	"testing/synctest"
 	"time"
@@ -93,6 +94,10 @@ type concTaskLog struct {
 }
 
 func runC12(t testingT, p *Program) *Result {
+	// one P: goroutines of the run never execute in parallel; which one runs is
+	// decided by the scheduler's grants (and, for helper goroutines of one
+	// operation, by channel hand-offs)
+	defer runtime.GOMAXPROCS(runtime.GOMAXPROCS(1))
 	res := &Result{Seed: p.Seed, Probes: map[string]int{}, FaultsHit: map[string]int{}}
 	wall := time.Now()
 	base := os.Getenv("VERIF_TMP")
@@ -215,7 +220,7 @@ func runC12Bubble(e *Env, p *Program, res *Result) {
 				} else {
 					r = concExec(ctx, e, store, levels, op, extraCh, lg)
 				}
-				lg.events = append(lg.events, fmt.Sprintf("t%d %s%s -> %s", tk, op.Kind, op.Mode, r))
+				lg.events = append(lg.events, e.san(fmt.Sprintf("t%d %s%s -> %s", tk, op.Kind, op.Mode, r)))
 			}
 		})
 	}
@@ -233,7 +238,7 @@ func runC12Bubble(e *Env, p *Program, res *Result) {
 	if err := sch.Run(); err != nil && res.Trouble == "" {
 		res.Trouble = "scheduler: " + err.Error()
 	}
-	stuck := sch.Drain(30*time.Second, 12)
+	stuck := sch.Drain(30*time.Second, 6000)
 	synctest.Wait()
 	e.Led.Observe("ls")
 	close(extraCh)
